@@ -10,7 +10,7 @@ Local Open Scope nat_scope.
 
 (* ---------- the normalisation is the identity on printed clean trees ---------- *)
 
-Definition structural (c : ascii) : Prop := c = "(" \/ c = ")" \/ c = "," \/ c = ":".
+Definition structural (c : ascii) : Prop := c = "(" \/ c = ")" \/ c = "," \/ c = ":" \/ c = "'".
 
 Lemma in_join : forall (sep : str) l c, In c (join sep l) -> In c sep \/ exists x, In x l /\ In c x.
 Proof.
@@ -36,7 +36,9 @@ Proof.
   induction t as [n l|cs l IH] using tree_ind'; intros H c Hc.
   - cbn [clean_tree] in H. apply andb_true_iff in H. destruct H as [Hn Hl].
     cbn [print_node] in Hc. apply in_app_or in Hc. destruct Hc as [Hc|Hc].
-    + right. apply clean_Forall in Hn. destruct Hn as [_ Hn]. rewrite Forall_forall in Hn. apply Hn. exact Hc.
+    + destruct (pname_in _ n c (print_name_clean n Hn) Hc) as [->|Hc'].
+      * left. unfold structural. tauto.
+      * right. apply clean_Forall in Hn. destruct Hn as [_ Hn]. rewrite Forall_forall in Hn. apply Hn. exact Hc'.
     + apply (plen_chars l); assumption.
   - apply clean_tree_node in H. destruct H as [Hcs Hl]. rewrite Forall_forall in IH.
     cbn [print_node] in Hc. destruct Hc as [<-|Hc]; [left; unfold structural; auto|].
